@@ -39,7 +39,7 @@ def hostile_names(rng, nc, repeats=False):
     colon or arrow, which the monitors' own parsing of tie-break messages relies on.
     """
     if repeats:
-        pool = rng.sample(HOSTILE_NAMES, max(1, nc // 2))
+        pool = rng.sample(HOSTILE_NAMES, max(1, min(len(HOSTILE_NAMES), nc // 2)))
         return [rng.choice(pool) for _ in range(nc)]
     if nc <= len(HOSTILE_NAMES):
         # one name of each dangerous kind (the marker's word, a brace directive, a percent directive), the rest at random
@@ -565,6 +565,34 @@ def g14_symmetric_split(rng, big=False):
     return make_valid(s, rng)
 
 
+def g15_many_candidates(rng, big=False):
+    """
+    more candidates than fit in a byte (257-330): ids beyond 256 are no longer small cached integers and rankings are stored in
+    wider arrays; a handful of well-supported candidates at both ends of the id range, long tails, many zero-vote candidates
+    """
+    nc = rng.randint(257, 330)
+    ns = rng.randint(1, 4)
+    cands = list(range(1, nc + 1))
+    strong = rng.sample(cands[:8] + cands[-12:], rng.randint(4, 8))
+    lines = []
+    for c in strong:
+        tail = rng.sample([x for x in strong if x != c], rng.randint(0, 3)) + rng.sample(cands, rng.randint(0, 2))
+        seen = []
+        for x in [c] + tail:
+            if x not in seen:
+                seen.append(x)
+        lines.append((rng.randint(3, 40), seen))
+    for _ in range(rng.randint(5, 25)):
+        r = rng.sample(sorted(set(cands[-60:] + strong)), rng.randint(1, 4))
+        lines.append((rng.randint(1, 6), r))
+    s = base(nc, ns, lines, rng)
+    s['names'] = ['c%d' % c for c in cands]
+    if rng.random() < 0.3:
+        s['withdrawn'] = rng.sample(cands, rng.randint(1, 3))
+    s['family'] = 'G15'
+    return make_valid(s, rng)
+
+
 def g8_equal_ranks(rng, big=False):
     "ballots with equal rankings (meek / warren only)"
     nc = rng.randint(3, 8 if big else 6)
@@ -740,7 +768,7 @@ def g9_real_files(rng, big=False, repo=None):
 
 FAMILIES = {
     'G1': g1_uniform, 'G2': g2_ties, 'G3': g3_quota_boundary, 'G4': g4_chains, 'G5': g5_coalition,
-    'G4b': g4b_tiny_chained_surpluses, 'G5b': g5b_two_surpluses, 'G11': g11_mid_electorate, 'G6': g6_degenerate, 'G7': g7_withdrawn_undeclared, 'G8': g8_equal_ranks, 'G8b': g8b_quota_creep, 'G12': g12_slow_quota_decay, 'G14': g14_symmetric_split, 'G9': g9_real_files,
+    'G4b': g4b_tiny_chained_surpluses, 'G5b': g5b_two_surpluses, 'G11': g11_mid_electorate, 'G6': g6_degenerate, 'G7': g7_withdrawn_undeclared, 'G8': g8_equal_ranks, 'G8b': g8b_quota_creep, 'G12': g12_slow_quota_decay, 'G14': g14_symmetric_split, 'G15': g15_many_candidates, 'G9': g9_real_files,
     'G10': g10_sure_losers,
 }
 
